@@ -166,6 +166,23 @@ CLAIMS["C11"] = (
     "Assumes typing.get_type_hints semantics.",
     "DESIGN.md §3 C11",
 )
+CLAIMS["C18"] = (
+    "identity-discipline scan, decision trees of the link-maintaining primitives, dependence analysis of the legacy digest",
+    "Necessary conditions on the hand-maintained redundancy of legacy nodes are decided on the source: upward queries compare nodes by identity; _reset_content_id walks the whole "
+    "parent chain and _replace_child calls it whenever a child is removed or its content id differs; wherever a child is stored its parent triple is set to exactly (parent, field, index) "
+    "of the same tuple, later siblings shift by -1 on removal, detach unlinks children and pops the entry; the legacy content digest depends on class, comparable properties and "
+    "(field, index, content_id) of children only. The invariant over histories is a reachability statement that static analysis does not decide and is not claimed.",
+    "Premise: no node object is placed at two positions; weak registry semantics.",
+    "DESIGN.md §3 C18",
+)
+CLAIMS["C20"] = (
+    "traversal-schema calculus + filter/prune truth table on the legacy worklists, grammar arity, escape analysis, truth table of the legacy step test",
+    "The calculus and truth tables of C05 applied to legacy dfs/bfs (seed is the start node, exempt from filter/prune/emission exactly when skip_self, which is reset), legacy gather's "
+    "formula and delegation, legacy xpath grammar vs transformer (all index digits), only the definition error escapes the legacy ASTXpath constructor, the legacy step test equals the "
+    "documented formula, calculate_xpath/_set_xpath spell field, index and class and recurse over all children. Agreement of legacy match with the v2 semantics over all paths is not decided.",
+    "Assumes stdlib deque semantics and lark's argument filtering.",
+    "DESIGN.md §3 C20",
+)
 PENDING = "check not built yet (work in progress; see DESIGN.md for the planned static rules)"
 
 checks = []
